@@ -45,6 +45,16 @@ BLOCK_SIZE = 2**14  # 16KiB
 logger = logging.getLogger(__name__)
 
 
+def _os_path(path) -> str:
+    """
+    Spell a path built from metafile names the way the OS functions need it.
+
+    Names in a metafile are UTF-8; under a filesystem encoding that cannot
+    encode them (LC_ALL=C) the `str` form is refused by the os functions.
+    """
+    return os.fsdecode(str(path).encode("utf-8", "surrogateescape"))
+
+
 class Checker:
     """
     Check a given file or directory to see if it matches a torrentfile.
@@ -388,7 +398,7 @@ class FeedChecker(ProgMixin):
             total = self.fileinfo[i]["length"]
             self.progbar = self.get_progress_tracker(total, path)
             self.index = i
-            if os.path.exists(path):
+            if os.path.exists(_os_path(path)):
                 pieces = self.extract(path, partial)
             else:
                 pieces = self._gen_padding(partial, total)
@@ -423,7 +433,7 @@ class FeedChecker(ProgMixin):
         partial = bytearray() if len(partial) == self.piece_length else partial
         if path not in self.paths:  # pragma: no cover
             raise MissingPathError(path)
-        with open(path, "rb") as current:
+        with open(_os_path(path), "rb") as current:
             while True:
                 bitlength = self.piece_length - len(partial)
                 part = bytearray(bitlength)
@@ -621,9 +631,9 @@ class HashChecker(ProgMixin):
             path = self.paths[self.index]
             self.progbar = self.get_progress_tracker(self.length, path)
             self.count = 0
-            if os.path.exists(self.current):
+            if os.path.exists(_os_path(self.current)):
                 self.hasher = FileHasher(
-                    path,
+                    _os_path(path),
                     self.piece_length,
                     progress=2,
                     progress_bar=self.progbar,
